@@ -129,7 +129,35 @@ class FlMulti(FlLeg):
                 ds, u, f = rng.random() < 0.5, rng.choice(Q.UNKS), rng.choice([None, 0, 1, 2])
                 queries.append(["FL", a, b, ds, u, f])
                 queries.append(["NB", a, "Fwd" if ds else "AnyDir", u, f])
-            yield {"ops": ops, "queries": queries, "caching": rng.random() < 0.5}    # caching on: every memo warmed first
+            case = {"ops": ops, "queries": queries, "caching": rng.random() < 0.5}    # caching on: every memo warmed first
+            if case["caching"] and lids and rng.random() < 0.6:
+                # ... and then the links are edited (an end retargeted, an end dropped, a pair unlinked) before the questions:
+                # find_links reads the links, neighbors() its memo - the size equation ties them together
+                th = []
+                for _ in range(rng.randint(1, 2)):
+                    k = rng.random()
+                    if k < 0.5:
+                        th.append([rng.choice(["SV1", "SV2"]), rng.choice(lids), rng.choice(vids)])
+                    elif k < 0.75:
+                        th.append(["LUF", rng.choice(lids), rng.choice(vids)])
+                    else:
+                        th.append(["UNL", rng.choice(vids), rng.choice(vids), True])
+                case["then_ops"] = th
+                # ask about the ends of the edited links in particular
+                ends, nid = {}, 0
+                for op in ops:
+                    if op[0] == "NE":
+                        ends[nid] = (op[2], op[3])
+                    nid += {"NV": 1, "NE": 1, "NL": 1, "NU": 2}.get(op[0], 0)
+                for t in th:
+                    if t[0] in ("SV1", "SV2", "LUF"):
+                        for x in ends.get(t[1], ()):
+                            for y in set(ends.get(t[1], ())) | {t[2]}:
+                                if x is not None and y is not None:
+                                    ds, u = rng.random() < 0.5, rng.choice(["UNb", "UNon"])
+                                    queries.append(["FL", x, y, ds, u, None])
+                                    queries.append(["NB", x, "Fwd" if ds else "AnyDir", u, None])
+            yield case
 
     def nontrivial(self, case, obs):
         return obs is not None and any(a[0] == "set" and len(a[1]) >= 2 for a in obs["answers"])
